@@ -3,7 +3,9 @@
 mod rng;
 mod sx;
 mod c31;
+mod c32;
 mod alpha;
+mod c06;
 mod c08;
 mod gram;
 mod c11;
@@ -51,6 +53,9 @@ fn main() {
     let a = parse_args();
     match a.cmd.as_str() {
         "c31" => c31::run(&a),
+        "c32" => c32::run(&a),
+        "c06" => c06::run_ff(&a),
+        "c05" => c06::run_dec(&a),
         "c08" => c08::run(&a),
         "c11" => c11::run(&a),
         "c12" => c12::run(&a),
